@@ -416,10 +416,15 @@ type modSet struct {
 	allCell bool
 	maps    map[string]types.Type
 	nexts   []*ssa.Next
+	// targeted writes: heap component (or map type) written only through these base values
+	compAt map[string][]ssa.Value
+	mapAt  map[string][]ssa.Value
+	whole  map[string]bool // component/map type also written through an unknown base
 }
 
 func newModSet() *modSet {
-	return &modSet{cells: map[*ssa.Alloc]bool{}, comps: map[string]types.Type{}, globals: map[*ssa.Global]bool{}, maps: map[string]types.Type{}}
+	return &modSet{cells: map[*ssa.Alloc]bool{}, comps: map[string]types.Type{}, globals: map[*ssa.Global]bool{}, maps: map[string]types.Type{},
+		compAt: map[string][]ssa.Value{}, mapAt: map[string][]ssa.Value{}, whole: map[string]bool{}}
 }
 
 func (ex *Exec) loopModSet(fr *Frame, li *loopInfo) *modSet {
@@ -440,7 +445,13 @@ func (ex *Exec) instrEffects(fn *ssa.Function, in ssa.Instruction, ms *modSet, b
 	case *ssa.Store:
 		ex.addrEffects(x.Addr, ms, binds)
 	case *ssa.MapUpdate:
-		ms.maps[x.Map.Type().Underlying().String()] = x.Map.Type()
+		k := x.Map.Type().Underlying().String()
+		ms.maps[k] = x.Map.Type()
+		if binds == nil && depth == 0 {
+			ms.mapAt[k] = append(ms.mapAt[k], x.Map)
+		} else {
+			ms.whole[k] = true
+		}
 	case *ssa.Next:
 		ms.nexts = append(ms.nexts, x)
 	case *ssa.Call:
@@ -462,6 +473,7 @@ func (ex *Exec) addrEffects(addr ssa.Value, ms *modSet, binds map[*ssa.FreeVar]s
 				if firstField != nil {
 					comp, ft := ex.heapCompName(a.Type().(*types.Pointer).Elem(), firstField.Field)
 					ms.comps[comp] = ft
+					ms.whole[comp] = true
 				} else {
 					ex.allFieldsOf(a.Type().(*types.Pointer).Elem(), ms)
 				}
@@ -506,6 +518,11 @@ func (ex *Exec) addrEffects(addr ssa.Value, ms *modSet, binds map[*ssa.FreeVar]s
 					if firstField != nil && firstField.X == cur {
 						comp, ft := ex.heapCompName(pt.Elem(), firstField.Field)
 						ms.comps[comp] = ft
+						if binds == nil {
+							ms.compAt[comp] = append(ms.compAt[comp], cur)
+						} else {
+							ms.whole[comp] = true
+						}
 					} else if firstField != nil {
 						// nested path below a field of the struct at cur
 						f := firstField
@@ -518,6 +535,11 @@ func (ex *Exec) addrEffects(addr ssa.Value, ms *modSet, binds map[*ssa.FreeVar]s
 						}
 						comp, ft := ex.heapCompName(pt.Elem(), f.Field)
 						ms.comps[comp] = ft
+						if binds == nil && f.X == cur {
+							ms.compAt[comp] = append(ms.compAt[comp], cur)
+						} else {
+							ms.whole[comp] = true
+						}
 					} else {
 						ex.allFieldsOf(pt.Elem(), ms)
 					}
@@ -543,6 +565,7 @@ func (ex *Exec) allFieldsOf(t types.Type, ms *modSet) {
 	for i := 0; i < st.NumFields(); i++ {
 		comp, ft := ex.heapCompName(t, i)
 		ms.comps[comp] = ft
+		ms.whole[comp] = true
 	}
 }
 
@@ -555,7 +578,7 @@ func (ex *Exec) callEffects(fn *ssa.Function, c *ssa.CallCommon, ms *modSet, bin
 	}
 	if c.IsInvoke() {
 		if ct := ex.prog.ifaceContract(c); ct != nil {
-			ex.contractEffects(ct, ms)
+			ex.contractEffects(ct, ms, nil, c, depth)
 			return
 		}
 		ms.allHeap = true
@@ -564,7 +587,13 @@ func (ex *Exec) callEffects(fn *ssa.Function, c *ssa.CallCommon, ms *modSet, bin
 	switch v := c.Value.(type) {
 	case *ssa.Builtin:
 		if v.Name() == "delete" || v.Name() == "clear" {
-			ms.maps[c.Args[0].Type().Underlying().String()] = c.Args[0].Type()
+			k := c.Args[0].Type().Underlying().String()
+			ms.maps[k] = c.Args[0].Type()
+			if binds == nil && depth == 0 {
+				ms.mapAt[k] = append(ms.mapAt[k], c.Args[0])
+			} else {
+				ms.whole[k] = true
+			}
 		}
 		return
 	case *ssa.MakeClosure:
@@ -587,7 +616,7 @@ func (ex *Exec) callEffects(fn *ssa.Function, c *ssa.CallCommon, ms *modSet, bin
 		}
 	}
 	if ct := ex.prog.contractFor(callee); ct != nil {
-		ex.contractEffects(ct, ms)
+		ex.contractEffects(ct, ms, callee, c, depth)
 		return
 	}
 	if !ex.prog.inModule(callee) {
@@ -662,7 +691,7 @@ func (ex *Exec) closureEffects(mc *ssa.MakeClosure, ms *modSet, outer map[*ssa.F
 	}
 }
 
-func (ex *Exec) contractEffects(ct *Contract, ms *modSet) {
+func (ex *Exec) contractEffects(ct *Contract, ms *modSet, callee *ssa.Function, c *ssa.CallCommon, depth int) {
 	if ct.Pure || (ct.HasMod && len(ct.Modifies) == 0) {
 		return
 	}
@@ -672,11 +701,39 @@ func (ex *Exec) contractEffects(ct *Contract, ms *modSet) {
 	}
 	for _, m := range ct.Modifies {
 		comp, ft, ok := ex.modTargetComp(ct, m)
+		if ok {
+			ms.comps[comp] = ft
+			ms.whole[comp] = true
+			continue
+		}
+		// "param.field": a field of the object the argument refers to
+		if sel, isSel := m.Expr.(ESel); isSel && callee != nil && depth == 0 {
+			if id, isId := sel.X.(EIdent); isId {
+				for i, p := range callee.Params {
+					if p.Name() != id.Name || i >= len(c.Args) {
+						continue
+					}
+					pt, isPtr := p.Type().Underlying().(*types.Pointer)
+					if !isPtr {
+						break
+					}
+					if s, isStruct := pt.Elem().Underlying().(*types.Struct); isStruct {
+						for k := 0; k < s.NumFields(); k++ {
+							if s.Field(k).Name() == sel.Name {
+								comp, ft := ex.heapCompName(pt.Elem(), k)
+								ms.comps[comp] = ft
+								ms.compAt[comp] = append(ms.compAt[comp], c.Args[i])
+								ok = true
+							}
+						}
+					}
+				}
+			}
+		}
 		if !ok {
 			ms.allHeap = true
 			return
 		}
-		ms.comps[comp] = ft
 	}
 }
 
@@ -754,7 +811,16 @@ func (ex *Exec) havocModSet(fr *Frame, st *State, ms *modSet, tag string) {
 	}
 	sort.Strings(comps)
 	for _, k := range comps {
-		ex.heapGet(st, k, ms.comps[k])
+		h := ex.heapGet(st, k, ms.comps[k])
+		if refs, ok := ex.targetRefs(fr, st, ms, ms.compAt[k], ms.whole[k]); ok {
+			// written only at known objects (defined before the loop): everything else keeps its value
+			for _, r := range refs {
+				nv := ex.havocValue(st, "hv_"+tag, ms.comps[k])
+				h = vc.define("H_"+k, ex.compSort(k), sx("store", h, r, nv.S))
+			}
+			st.heap[k] = h
+			continue
+		}
 		st.heap[k] = vc.fresh("Hh_"+k+"_"+tag, ex.compSort(k))
 	}
 	for g := range ms.globals {
@@ -776,6 +842,18 @@ func (ex *Exec) havocModSet(fr *Frame, st *State, ms *modSet, tag string) {
 	}
 	sort.Strings(mks)
 	for _, k := range mks {
+		if refs, ok := ex.targetRefs(fr, st, ms, ms.mapAt[k], ms.whole[k]); ok {
+			mc := ex.mapCompsOf(ms.maps[k])
+			for _, c := range []string{mc.has, mc.val, mc.ln} {
+				h := ex.mapHeap(st, c)
+				for _, r := range refs {
+					nv := vc.fresh("mh_"+tag, ex.vc.heapT[c].sort)
+					h = vc.define("Mx", ex.compSort(c), sx("store", h, r, nv))
+				}
+				st.heap[c] = h
+			}
+			continue
+		}
 		ex.havocMapType(st, ms.maps[k], tag)
 	}
 }
@@ -837,4 +915,39 @@ func (ex *Exec) rangeIndexFact(fr *Frame, li *loopInfo, st *State) {
 		return
 	}
 	ex.assume(st, sAnd(sx("<=", "(- 1)", cur.S), sOr(sx("<", cur.S, lv.S), sEq(cur.S, "(- 1)"))))
+}
+
+// targetRefs: the references behind base values that were all computed before the loop (so that they denote
+// the same objects in every iteration). ok is false when some write goes through an unknown base.
+func (ex *Exec) targetRefs(fr *Frame, st *State, ms *modSet, bases []ssa.Value, whole bool) ([]string, bool) {
+	if whole || len(bases) == 0 || fr == nil || ms.allCell {
+		return nil, false
+	}
+	seen := map[string]bool{}
+	var out []string
+	for _, b := range bases {
+		v, ok := fr.vals[b]
+		if !ok {
+			// a load from a local that the loop never assigns denotes the same object in every iteration
+			if u, isLoad := b.(*ssa.UnOp); isLoad && u.Op == token.MUL {
+				if a, isAlloc := u.X.(*ssa.Alloc); isAlloc && !ms.cells[a] && !ex.isHeapAlloc(a) {
+					if cv, has := st.cells[a]; has {
+						v, ok = cv, true
+					}
+				}
+			}
+		}
+		if !ok {
+			return nil, false // defined inside the loop
+		}
+		t, ok := v.(Term)
+		if !ok {
+			return nil, false
+		}
+		if !seen[t.S] {
+			seen[t.S] = true
+			out = append(out, t.S)
+		}
+	}
+	return out, true
 }
